@@ -162,6 +162,19 @@ class RejectingFilestore(NativeFilestore):
             raise PermissionError(file)
         return super().write_data(file, data, offset)
 
+    # reject == 2: the filestore also refuses to create / truncate the destination file (the PermissionError branch of
+    # DestHandler._init_vfs_handling).  The Coq model's rejection switch covers write_data only, so traces that use this
+    # mode are judged by the oracles on the implementation and are not part of the correspondence.
+    def create_file(self, file):
+        if self.reject == 2:
+            raise PermissionError(file)
+        return super().create_file(file)
+
+    def truncate_file(self, file):
+        if self.reject == 2:
+            raise PermissionError(file)
+        return super().truncate_file(file)
+
 
 @dataclass
 class Cfg:
@@ -311,8 +324,8 @@ class Side:
         self.record([5, ms], 0, 0)
 
     def set_reject(self, on):
-        self.w.dst_vfs.reject = bool(on)
-        self.record([6, 1 if on else 0], 0, 0)
+        self.w.dst_vfs.reject = 2 if on == 2 else bool(on)
+        self.record([6, 2 if on == 2 else (1 if on else 0)], 0, 0)
 
     def put(self, req_ints, req: PutRequest):
         exc, ret = 0, 0
@@ -775,7 +788,7 @@ class Solo:
             VClock.now += op[1]
             s.note_advance(op[1])
         elif t == 6:
-            s.set_reject(bool(op[1]))
+            s.set_reject(2 if op[1] == 2 else bool(op[1]))
         elif t == 7:
             s.fs_op(op)
         elif t == 8:
